@@ -1,4 +1,4 @@
-import BipVerif.Model.Bip32
+import BipVerif.Model.Bip44
 namespace BipVerif.Props.C03
 theorem placeholder : True := trivial
 end BipVerif.Props.C03
